@@ -210,7 +210,7 @@ impl Engine for FileE2e {
                         let mut emitted = 0usize;
                         let mut do_flush = |emitted: usize, ms: u64| {
                             let t0 = sc.now();
-                            let r = emitter.blocking_flush(Duration::from_millis(ms));
+                            let r = simthread::with_deadline(&sc, Duration::from_millis(ms), || emitter.blocking_flush(Duration::from_millis(ms)));
                             let t1 = sc.now();
                             // what a crash right now would leave on disk
                             let (da, db) = (durable(&fa), durable(&fb));
